@@ -168,6 +168,8 @@ class ExprMixin:
             if v.how == 'opaque':
                 return v.a[0] != NONE
             return z3.BoolVal(True)
+        if isinstance(v, SVal) and v.t.get_id() in self.stable_lists:
+            return self.f_oseq_len(v.t) != 0
         if isinstance(v, SVal):
             # opaque value: None is falsy; any other opaque value has an uninterpreted truthiness
             return z3.And(v.t != NONE, self.f_truthy(v.t))
@@ -704,6 +706,15 @@ class ExprMixin:
                 kwargs = {k.arg: v for k, v in zip(node.keywords, vals[len(node.args):])}
                 out.extend(self.call(fv, args, kwargs, s2, node))
         return out
+
+    def ev_GeneratorExp(self, node, st):
+        # a generator expression over an opaque iterable is an opaque iterable (its items are arbitrary); anything else
+        # is outside the subset
+        if len(node.generators) == 1:
+            src = self.ev1(node.generators[0].iter, st)
+            if isinstance(src, SVal):
+                return [(SVal(self.fresh(st, 'opaque_genexp', Val)), st)]
+        raise Unsupported('generator expression at line %d' % node.lineno)
 
     def ev_DictComp(self, node, st):
         """{K: V for (k, v) in d.items() if C}: pointwise definition of the new dict"""
